@@ -79,6 +79,11 @@ pub struct LayoutCfg {
     pub wrap_to_zero: bool,
     pub free_gaps: bool,
     pub extra_dir_sector: bool,
+    /// one FAT sector more than the file needs (all its cells FREE); with room, the mini stream's chain is padded
+    /// (its size counts free mini sectors at the end) so that the sector count is an exact multiple of the FAT
+    /// entries per sector with no free sector: the first allocation afterwards appends a FAT sector whose own
+    /// cell lies in the spare one
+    pub spare_fat: bool,
 }
 
 fn le32(b: &mut [u8], off: usize, v: u32) {
@@ -156,13 +161,15 @@ pub fn build(root: &Node, cfg: &LayoutCfg, rng: &mut Rng) -> Vec<u8> {
     } else {
         max_used * 64
     };
-    let n_root_sectors = (mini_stream_len + s - 1) / s;
+    let mut mini_stream_len = mini_stream_len;
+    let mut n_root_sectors = (mini_stream_len + s - 1) / s;
     let n_minifat_sectors = (n_mini * 4 + s - 1) / s;
     let n_dir_sectors = n_slots / per_dir;
     // ---- sector budget
     let n_big: usize = big_streams.iter().map(|x| x.1).sum();
-    let sector_gaps = if cfg.free_gaps { rng.below(6) as usize } else { 0 };
-    let body = n_dir_sectors + n_minifat_sectors + n_root_sectors + n_big + sector_gaps;
+    let spare = cfg.spare_fat && !cfg.wrap_to_zero;
+    let sector_gaps = if cfg.free_gaps && !spare { rng.below(6) as usize } else { 0 };
+    let mut body = n_dir_sectors + n_minifat_sectors + n_root_sectors + n_big + sector_gaps;
     // number of FAT (and DIFAT) sectors: fixpoint
     let mut n_fat = 1;
     let mut n_difat;
@@ -178,6 +185,21 @@ pub fn build(root: &Node, cfg: &LayoutCfg, rng: &mut Rng) -> Vec<u8> {
             break;
         }
         n_fat = need;
+    }
+    if spare && n_fat < 100 {
+        // the spare FAT sector is a sector of the file too
+        let need_now = (total + 1 + epsec - 1) / epsec;
+        if need_now <= n_fat {
+            n_fat += 1;
+            total += 1;
+            let pad = (epsec - total % epsec) % epsec;
+            if max_used > 0 && pad <= 90 {
+                n_root_sectors += pad;
+                mini_stream_len += pad * s;
+                body += pad;
+                total += pad;
+            }
+        }
     }
     // ---- assign sector ids
     let mut ids: Vec<u32> = (0..total as u32).collect();
